@@ -1,5 +1,5 @@
 ENTRY = dict(
-    runner="C08", pkg="./cmd/c08", corr=["Corr.C08Corr"], n=dict(quick=40, thorough=1500),
+    runner="C08", pkg="./cmd/c08", corr=["Corr.C08Corr"], n=dict(quick=24, thorough=800),
     rule="one generator per built-in TLSExtension type (31; harness/extcoq) makes fresh random values within wire limits "
          "with the main list/byte-string field of length 0,1,2,3,255,256 (clamped to the type's limit) and n/8 random "
          "lengths in 0..40, GREASE values mixed in; each value is read into zeroed buffers of 0, Len-1, Len and Len+7 bytes "
